@@ -4,6 +4,7 @@ import ZV.Driver.C04
 import ZV.Driver.C05
 import ZV.Driver.C06
 import ZV.Driver.C08
+import ZV.Driver.C09
 import ZV.Driver.C11
 
 def dispatch (line : String) : String :=
@@ -12,6 +13,7 @@ def dispatch (line : String) : String :=
   | "c05" :: ws => ZV.Driver.C05.handle ws
   | "c06" :: ws => ZV.Driver.C06.handle ws
   | "c08" :: ws => ZV.Driver.C08.handle ws
+  | "c09" :: ws => ZV.Driver.C09.handle ws
   | "c11" :: ws => ZV.Driver.C11.handle ws
   | _ => "bad-op"
 
